@@ -433,7 +433,8 @@ def rule_trans(ctx, roles):
                     idx = chk[2][0][2][1]
                     idx_is_child = any(m[0] == "bin" and m[1] == "BitXor" for m in members(idx))
                     oth_ok = other[0] == "param" and other[1] == want_param
-                    if op == "Eq":
+                    if op in ("Eq", "Ne"):
+                        # (the polarity of the test is TRANS-CHECK some-guarded-by-check's business: Some only on the equal side)
                         found = True
                         ctx.check(idx_is_child and oth_ok, "TRANS-CHECK", vw.body, "check-compare", vw.body.loc(bi),
                                   "validity test must compare check(states[base^label]) with %s; found check(states[%s]) == %s"
